@@ -224,11 +224,79 @@ pub enum Tgt {
     EdgeOff(u8, i8),
 }
 
+/// Arguments of `set_adaptive_fee_constants`: every constant is optional, `None` keeps the stored value.
+#[derive(Clone, Copy, Debug, Default, PartialEq, Eq, Hash, Serialize, Deserialize, PartialOrd, Ord)]
+pub struct CSet {
+    #[serde(default)]
+    pub filter: Option<u16>,
+    #[serde(default)]
+    pub decay: Option<u16>,
+    #[serde(default)]
+    pub reduction: Option<u16>,
+    #[serde(default)]
+    pub control: Option<u32>,
+    #[serde(default)]
+    pub max_acc: Option<u32>,
+    #[serde(default)]
+    pub group: Option<u16>,
+    #[serde(default)]
+    pub threshold: Option<u16>,
+}
+impl CSet {
+    pub fn all(c: &AfConsts) -> CSet {
+        CSet { filter: Some(c.filter), decay: Some(c.decay), reduction: Some(c.reduction), control: Some(c.control), max_acc: Some(c.max_acc), group: Some(c.group), threshold: Some(c.threshold) }
+    }
+    /// the constants the pool is configured with after a successful call on a pool configured with `c`
+    pub fn merged(&self, c: &AfConsts) -> AfConsts {
+        AfConsts {
+            filter: self.filter.unwrap_or(c.filter),
+            decay: self.decay.unwrap_or(c.decay),
+            reduction: self.reduction.unwrap_or(c.reduction),
+            control: self.control.unwrap_or(c.control),
+            max_acc: self.max_acc.unwrap_or(c.max_acc),
+            group: self.group.unwrap_or(c.group),
+            threshold: self.threshold.unwrap_or(c.threshold),
+        }
+    }
+}
+
 #[derive(Clone, Debug, PartialEq, Eq, Hash, Serialize, Deserialize, PartialOrd, Ord)]
 pub enum AOp {
     Swap { a_to_b: bool, exact_in: bool, amount: u64, tgt: Tgt, v2: bool },
     /// advance ledger.unix_ts (same semantics as crate::ops::Op::Clock)
     Clock(i64),
+    /// the REAL `set_adaptive_fee_constants`, signed by the config's fee authority, on the adaptive pool's oracle
+    SetConsts(CSet),
+}
+
+/// constants currently stored in the pool's oracle account (they change under `AOp::SetConsts`)
+pub fn stored_consts(l: &Ledger, w: &AfWorld) -> AfConsts {
+    let o = crate::decode::oracle(l.data(&w.pool.oracle));
+    AfConsts {
+        filter: o.filter_period,
+        decay: o.decay_period,
+        reduction: o.reduction_factor,
+        control: o.adaptive_fee_control_factor,
+        max_acc: o.max_volatility_accumulator,
+        group: o.tick_group_size,
+        threshold: o.major_swap_threshold_ticks,
+    }
+}
+
+pub fn ix_set_adaptive_fee_constants(w: &AfWorld, c: &CSet) -> Instruction {
+    world::ix(
+        wa::SetAdaptiveFeeConstants { whirlpool: w.pool.addr, whirlpools_config: w.cfg.addr, oracle: w.pool.oracle, fee_authority: w.cfg.fee_authority }.to_account_metas(None),
+        wi::SetAdaptiveFeeConstants {
+            filter_period: c.filter,
+            decay_period: c.decay,
+            reduction_factor: c.reduction,
+            adaptive_fee_control_factor: c.control,
+            max_volatility_accumulator: c.max_acc,
+            tick_group_size: c.group,
+            major_swap_threshold_ticks: c.threshold,
+        }
+        .data(),
+    )
 }
 
 pub fn floor_div(a: i64, b: i64) -> i64 {
@@ -309,7 +377,8 @@ pub fn apply(l: &Ledger, w: &AfWorld, op: &AOp) -> AStepped {
         }
         AOp::Swap { a_to_b, exact_in, amount, tgt, v2 } => {
             let st = w.pool.state(l);
-            let limit = resolve_tgt(st.sqrt_price, w.consts.group as i64, *a_to_b, *tgt);
+            // group boundaries of the CURRENTLY configured tick group size (== w.consts.group until a SetConsts changes it)
+            let limit = resolve_tgt(st.sqrt_price, stored_consts(l, w).group as i64, *a_to_b, *tgt);
             let ix = ix_swap_on(l, w, &w.pool, &w.trader, *a_to_b, *exact_in, *amount, limit, *v2, true);
             let _ = whirlpool::verif_hooks::take_swap_trace();
             let outcome = svm::process(&mut n, &ix);
@@ -325,6 +394,10 @@ pub fn apply(l: &Ledger, w: &AfWorld, op: &AOp) -> AStepped {
                 _ => None,
             };
             AStepped { ledger: n, outcome, trace, limit, twin_outcome }
+        }
+        AOp::SetConsts(c) => {
+            let outcome = svm::process(&mut n, &ix_set_adaptive_fee_constants(w, c));
+            AStepped { ledger: n, outcome, trace: vec![], limit: 0, twin_outcome: None }
         }
     }
 }
